@@ -548,9 +548,12 @@ func (s *ObjectStorage) HasEncodedObject(h plumbing.Hash) (err error) {
 	// Existence-only on the loose path: Stat instead of Open
 	// avoids a per-call open()+close() pair when the object lives
 	// in loose.
+	// Under ExclusiveAccess the loose probe answers ErrObjectNotFound from
+	// the cached object list instead of a not-exist error from Stat; both
+	// mean "not loose here" and must still fall through to the alternates.
 	if _, statErr := s.dir.ObjectStat(h); statErr == nil {
 		return nil
-	} else if !os.IsNotExist(statErr) {
+	} else if !os.IsNotExist(statErr) && !errors.Is(statErr, plumbing.ErrObjectNotFound) {
 		return statErr
 	}
 	if idxErr != nil {
